@@ -292,57 +292,5 @@ def gen_geomtables(repo, res):
             res.fail(key, f"{cls}: the tables {dup} are declared twice (redefinition in C)", loc)
 
 
-@rule(
-    "GEOM-TABLE-DTYPE",
-    ["C19", "C01", "C02", "C17"],
-    "every reference-geometry table is declared by geometry.write_table with the data type through which access.py reads it: the "
-    "accessors' symbols `<cell>_<table>` (collected from the f-strings of access.py) and the declaring symbol of the writer that "
-    "write_table dispatches that table name to must carry the same DataType - an INT access "
-    "to a REAL table makes every intermediate computed from it an `int` (FacetOrientation/2 becomes 0)",
-    min_instances=6,
-)
-def geom_table_dtype(repo, res):
-    import ast as _ast
-    import re as _re
-
-    from ..model import call_name, calls_in, dotted
-
-    am = repo.mod("ffcx.codegeneration.access")
-    gm = repo.mod("ffcx.codegeneration.geometry")
-    accessed = {}
-    for q, f in am.funcs.items():
-        for c in calls_in(f.node):
-            if (call_name(c) or "").endswith("Symbol") and c.args and isinstance(c.args[0], _ast.JoinedStr):
-                t = "".join(v.value if isinstance(v, _ast.Constant) else "{}" for v in c.args[0].values)
-                mm = _re.fullmatch(r"\{\}_(\w+)", t)
-                dt = [k.value for k in c.keywords if k.arg == "dtype"] or c.args[1:2]
-                if mm and dt:
-                    accessed.setdefault(mm.group(1), set()).add(((dotted(dt[0]) or "").split(".")[-1], f.key, am.line(c)))
-    wt = gm.func("write_table")
-    res.functions.add(wt.key)
-    for name, uses in sorted(accessed.items()):
-        key = f"{wt.key}:{name}:dtype"
-        res.ob(key)
-        decl = {}
-        if "dtype" not in decl:
-            # locate the writer by the dispatch's own callee name and read the dtype of the symbol it declares
-            callee = None
-            for n in _ast.walk(wt.node):
-                if isinstance(n, _ast.If) and any(isinstance(x, _ast.Constant) and x.value == name for x in _ast.walk(n.test)):
-                    for c in calls_in(n):
-                        if call_name(c) in gm.funcs:
-                            callee = gm.funcs[call_name(c)]
-            if callee is not None:
-                res.functions.add(callee.key)
-                for c in calls_in(callee.node):
-                    if (call_name(c) or "").endswith("Symbol"):
-                        dt = [k.value for k in c.keywords if k.arg == "dtype"] or c.args[1:2]
-                        if dt:
-                            decl["dtype"] = "DataType." + (dotted(dt[0]) or "").split(".")[-1]
-        if "dtype" not in decl:
-            raise AnalysisError(f"geometry table `{name}`: declaration not found ({decl})")
-        dd = str(decl["dtype"]).split(".")[-1]
-        for adt, fkey, where in sorted(uses):
-            if adt != dd:
-                res.fail(key, f"table `<cell>_{name}` is declared {dd} by geometry.write_table but read through an {adt}-typed symbol in {fkey.split(':')[-1]}: every "
-                         f"intermediate computed from it is typed {adt} (an `int` variable truncates: FacetOrientation(mesh)/2 * v * ds tabulates 0 instead of +-1/2)", where)
+# GEOM-TABLE-DTYPE (f-string matching of table names) is retired: geomaccess.GEOM-ACCESS compares the declared and the accessing symbol's type
+# on the interpreted declarations and access expressions.
